@@ -103,6 +103,11 @@ end Schema
 inductive Status | created | inserted | updated | modified | marked | cancelled | deleted
 deriving DecidableEq, Repr, Inhabited
 
+/-- the statuses of objects that have a place in objects_to_save -/
+def Status.queued : Status → Bool
+  | .created | .modified | .marked => true
+  | _ => false
+
 def Status.isDel : Status → Bool
   | .marked | .cancelled | .deleted => true
   | _ => false
@@ -356,7 +361,7 @@ def moveSimple (o : ObjId) (a : AttrId) (old new : Option Nat) (s : Store) : Opt
 
 /-- a key tuple, `None` if a part is None -/
 def tuple (vals : List (Option Nat)) : Option (List Nat) :=
-  if vals.all Option.isSome then some (vals.map fun v => v.getD 0) else none
+  if vals.all Option.isSome && !vals.isEmpty then some (vals.map fun v => v.getD 0) else none
 
 /-- `cache.update_composite_index(obj, attrs, prev_vals, new_vals, undo)` -/
 def moveComp (o : ObjId) (k : KeyId) (prev new : Option (List Nat)) (s : Store) : Option (Store × List IdxMove × Bool) :=
@@ -876,42 +881,44 @@ def create (sch : Schema) (fuel : Nat) (e : EntId) (pk : Option Nat) (vals : Lis
 
 /-! ## 11. flush (in-memory effects; never fails in the model) -/
 
-/-- `cache.flush()`: `_calc_modified_m2m` clears added/removed of the modified collections,
+/-- what flush does to one object: `_calc_modified_m2m` resets added/removed of its modified collections, `_save_` moves the status on -/
+def flushRow (ids : List (ObjId × Nat)) (s : Store) (o : ObjId) : Row :=
+  let r := s.row o
+  let r := { r with
+    added := fun c x => if s.modColl c o then false else r.added c x,
+    removed := fun c x => if s.modColl c o then false else r.removed c x }
+  match r.status with
+  | .created =>
+    let pk := match r.pk with
+      | some p => some p
+      | none => (ids.find? fun p => p.1 == o).map (·.2)
+    { r with status := .inserted, savePos := none, wbits := fun _ => false, pk := pk }
+  | .modified => { r with status := .updated, savePos := none, wbits := fun _ => false }
+  | .marked => { r with status := .deleted, savePos := none }
+  | _ => r
+
+/-- primary-key index at flush: auto primary keys enter it, deleted objects leave it -/
+def flushPk (ids : List (ObjId × Nat)) (s : Store) (acc : Store) (o : ObjId) : Store :=
+  let r0 := s.row o
+  let r1 := flushRow ids s o
+  match r0.status with
+  | .created =>
+    (match r0.pk, r1.pk with
+     | none, some p => { acc with pkIdx := set2 acc.pkIdx r1.ent p (some o), seen := .pk r1.ent p :: acc.seen }
+     | _, _ => acc)
+  | .marked =>
+    (match r0.pk with
+     | some p => { acc with pkIdx := set2 acc.pkIdx r0.ent p none }
+     | none => acc)
+  | _ => acc
+
+/-- `cache.flush()` (in-memory effects; never fails in the model): `_calc_modified_m2m` clears added/removed of the modified collections,
     `_save_` moves statuses on, the save queue and `modified_collections` are emptied.
     `ids` are the primary keys the database assigned to objects created without one. -/
 def flush (sch : Schema) (ids : List (ObjId × Nat)) (s : Store) : Store :=
   if !s.modified then s else
-  -- _calc_modified_m2m resets added/removed of every object in modified_collections (also on the side of a many-to-many pair
-  -- whose link rows were collected from the reverse side)
-  let clears : AttrId → Bool := fun _ => true
-  let s1 : Store := { s with row := fun o =>
-    let r := s.row o
-    let r := { r with
-      added := fun c x => if s.modColl c o && clears c then false else r.added c x,
-      removed := fun c x => if s.modColl c o && clears c then false else r.removed c x }
-    match r.status with
-    | .created =>
-      let pk := match r.pk with
-        | some p => some p
-        | none => (ids.find? fun p => p.1 == o).map (·.2)
-      { r with status := .inserted, savePos := none, wbits := fun _ => false, pk := pk }
-    | .modified => { r with status := .updated, savePos := none, wbits := fun _ => false }
-    | .marked => { r with status := .deleted, savePos := none }
-    | _ => r }
-  -- auto primary keys enter the index; deleted objects leave it
-  let s2 := (List.range s.n).foldl (fun (acc : Store) o =>
-    let r0 := s.row o
-    let r1 := s1.row o
-    match r0.status with
-    | .created =>
-      (match r0.pk, r1.pk with
-       | none, some p => { acc with pkIdx := set2 acc.pkIdx r1.ent p (some o), seen := .pk r1.ent p :: acc.seen }
-       | _, _ => acc)
-    | .marked =>
-      (match r0.pk with
-       | some p => { acc with pkIdx := set2 acc.pkIdx r0.ent p none }
-       | none => acc)
-    | _ => acc) s1
+  let s1 : Store := { s with row := flushRow ids s }
+  let s2 := (List.range s.n).foldl (flushPk ids s) s1
   { s2 with toSave := [], modColl := fun _ _ => false, modKey := fun _ => false, modified := false }
 
 /-! ## 12. Operations and `step` -/
